@@ -260,8 +260,14 @@ func (s *Set) c01(w *simapi.Write, v *simapi.View) {
 		// beyond what the abandoned step had reached
 		if exp > st.lastExp && R == st.lastReplicas {
 			s.count("c01_raises_checked", 1)
-			s.violate("C01", fmt.Sprintf("c01:exposure-raised-during-supersession:%s/%s", s.S.Kind, s.S.Style), fmt.Sprintf("%s raised the new-revision target of %s from %d to %d pods (replicas %d) while the superseded release is being reset and the new one has not reached any step",
-				w.Actor, w.Key, st.lastExp, exp, R), w, nil)
+			// who did it: the BatchRelease of the superseded release still going on with the new template (it notices
+			// the revision change, aborts one round and then carries on), or one that is being finalized / removed
+			how := "by-finalizing-batchrelease"
+			if br := v.Get("BatchRelease", s.ns, s.S.RolloutName()); br != nil && !simapi.Deleting(br) && simapi.Str(br, "status.phase") == "Progressing" {
+				how = "stale-batchrelease-continues-with-new-revision"
+			}
+			s.violate("C01", fmt.Sprintf("c01:exposure-raised-during-supersession:%s:%s/%s", how, s.S.Kind, s.S.Style), fmt.Sprintf("%s raised the new-revision target of %s from %d to %d pods (replicas %d) while the superseded release is being reset and the new one has not reached any step (%s)",
+				w.Actor, w.Key, st.lastExp, exp, R, how), w, nil)
 		}
 		return
 	}
